@@ -40,9 +40,14 @@ impl ErrRec {
             TagIteratorError::UnexpectedEOF { tag_start, tag_id, tag_size, partial_data } => ErrRec::Eof { start: *tag_start, id: *tag_id, size: *tag_size, partial: partial_data.clone() },
             TagIteratorError::CorruptedTagData { tag_id, problem } => ErrRec::TagData { id: *tag_id, problem: format!("{:?}", problem).chars().take(60).collect() },
             TagIteratorError::ReadError { source } => {
-                // "carrying the original error": through the variant's field and through std::error::Error::source()
+                // "carrying the original error": the variant's field is what is judged; whether std::error::Error::source()
+                // leads to it as well is recorded (thread-local counter), a second channel no statement demands
                 let via_chain = std::error::Error::source(e).and_then(|s| s.downcast_ref::<std::io::Error>()).map(|io| io.kind() == source.kind() && io.to_string() == source.to_string()).unwrap_or(false);
-                ErrRec::Read { kind: format!("{:?}", source.kind()), msg: if via_chain { source.to_string() } else { format!("{} [Error::source() does not lead to this error]", source) } }
+                SOURCE_CHAIN.with(|c| {
+                    let mut c = c.borrow_mut();
+                    if via_chain { c.0 += 1 } else { c.1 += 1 }
+                });
+                ErrRec::Read { kind: format!("{:?}", source.kind()), msg: source.to_string() }
             }
         }
     }
@@ -207,9 +212,19 @@ impl Ev {
     }
 }
 
-/// logical step budget for one API call on an input of `len` bytes with `items` items so far
+/// Logical step budget for one API call on an input of `len` bytes with `items` items so far. Its only purpose is to
+/// tell "returns" from "never returns" (C05) without a wall clock: no property bounds the *work* of a call, and a correct
+/// reader may well spend O(nesting depth) ticks per element (validating against every open master in an explicit, ticked
+/// loop), i.e. O(len^2) per call on deeply nested input. The budget is therefore quadratic, capped so that a real endless
+/// loop is still cut off within seconds.
 pub fn step_budget(len: usize, items: usize) -> u64 {
-    64 * (len as u64 + items as u64) + 4096
+    let n = len as u64 + items as u64 + 64;
+    (64 * n * n.min(4096) + 4096).min(1 << 33)
+}
+
+thread_local! {
+    /// (ReadErrors whose Error::source() leads to the original io::Error, ReadErrors where it does not)
+    pub static SOURCE_CHAIN: std::cell::RefCell<(u64, u64)> = std::cell::RefCell::new((0, 0));
 }
 
 pub fn next_ev<R: Read>(it: &mut TagIterator<R, DynTag>, budget: u64) -> Ev {
